@@ -28,7 +28,7 @@ RULE += " Depth limit: the 1023-deep chain is also taken through to_boc/one_from
 ASSUMPTIONS = ['SHA-256 from hashlib is trusted', 'long bit-string contents by representatives (all lengths complete)']
 NOT_ASSERTED = []
 
-ROUTES = ['builder', 'ctor_tvm', 'ctor_plain', 'boc_bytes', 'boc_hex', 'boc_b64', 'copy', 'parse_to_cell', 'slice_from_cell',
+ROUTES = ['builder', 'ctor_tvm', 'ctor_plain', 'ctor_plain_le', 'boc_bytes', 'boc_hex', 'boc_b64', 'copy', 'parse_to_cell', 'slice_from_cell',
           'to_builder', 'builder_to_slice', 'builder_from_boc', 'slice_from_boc', 'boc_options', 'builder_reused', 'slice_reused', 'derived_mutated']
 
 
@@ -122,6 +122,7 @@ def _routes(rc, refs_lib):
     yield 'builder', lambda: base().end_cell()
     yield 'ctor_tvm', tvm
     yield 'ctor_plain', lambda: Cell(bitarray(rc.bits), list(refs_lib), -1)
+    yield 'ctor_plain_le', lambda: Cell(bitarray(rc.bits, endian='little'), list(refs_lib), -1)      # the same bits in a little-endian bit array
     yield 'boc_bytes', lambda: Cell.one_from_boc(base().end_cell().to_boc())
     yield 'boc_hex', lambda: Cell.one_from_boc(base().end_cell().to_boc().hex())
     yield 'boc_b64', lambda: Cell.one_from_boc(base64.b64encode(base().end_cell().to_boc()).decode())
